@@ -357,7 +357,7 @@ func runC07(c *Ctx) {
 	}
 
 	// ---- the primitives Add/Remove/RemoveAt delegate to
-	c12Splice(c, "splice-primitives", false)
+	c12Splice(c, "splice-primitives", true)
 	// ---- constructors: every function of the package that returns a Sorted
 	nctor := 0
 	for _, fi := range c.P.FuncsOfPkg("slices") {
